@@ -415,7 +415,14 @@ def b_abs(it, x):
 def b_round(it, x, nd=None):
     if not is_sym(x):
         return round(V.exact(x), nd) if nd is not None else round(V.exact(x))
-    raise Unsupported('round of symbolic value')
+    if nd is not None:
+        raise Unsupported('round of symbolic value to digits')
+    if z3.is_int(x):
+        return x
+    # python round(): nearest integer, ties to even
+    h = x + z3.RealVal('1/2')
+    f = z3.ToInt(h)
+    return z3.If(z3.And(z3.ToReal(f) == h, f % 2 == 1), f - 1, f)
 
 
 def b_print(it, *a, **k):
